@@ -161,6 +161,8 @@ def c07(run, replay=None):
             else:
                 run.violation("accepted-but-not-in-language: `prog %s` with %r gives %s; reference bindings %r" %
                               (r["usage"], r["argv"], json.dumps(r["outs"][0]), (r["ref"] or {}).get("matches")), replay_of(r))
+    tchecked, tdist = tail_correspondence(run, recs, 6000 if run.tier == "quick" else 100000)
+    run.coverage.update(tail_mirror_cases=tchecked, tail_mirror_outcomes=tdist)
     base_cov(run, recs, nus, acc,
              "enumerated usage sections (1-3 elements over 2 commands, 2 positionals, optional/group/alternation/repeat, 1-2 usage lines, with and without an options section) x all argv over a small alphabet up to the length bound; "
              "non-trivial = pairs the implementation accepts (each is checked against the verified reference matcher, options allowed anywhere)")
@@ -348,6 +350,83 @@ def c10(run, replay=None):
              "(short/long, -oV / -o V / -o=V / --out=V / --out V, stacked short flags); non-trivial = re-spelled argument vectors whose Coq canonicalisation equals the original's; "
              "shape = every declared option key and every command key present in every accepted result",
              dict(respelling_groups=len(groups), respelled_vectors=nresp, shape_checked=shape_checked))
+
+
+
+def jv_of_json(x):
+    """implementation JSON -> the model's s-expression value (parsed form)"""
+    if x is None:
+        return "null"
+    if isinstance(x, bool):
+        return "t" if x else "f"
+    if isinstance(x, int):
+        return ["num", str(x)]
+    if isinstance(x, str):
+        return ["str", hx(x)]
+    if isinstance(x, list):
+        return ["arr"] + [hx(i) for i in x]
+    return ["obj"] + [[hx(k), jv_of_json(v)] for k, v in x.items()]
+
+
+def canon_jv(e):
+    """order-insensitive canonical form of a model value"""
+    if isinstance(e, str):
+        return e
+    if e[0] == "obj":
+        return ("obj", tuple(sorted((kv[0], canon_jv(kv[1])) for kv in e[1:])))
+    if e[0] == "arr":
+        return ("arr", tuple(e[1:]))
+    return tuple(e)
+
+
+def tail_correspondence(run, recs, cap):
+    """the mirror of docopt's last stage (Tail.v), fed with the normalised argv, sorted expanded usages and
+    option descriptors the implementation itself computed (rash_verif hook), must give the implementation's answer"""
+    good = [r for r in recs if "crash" not in r["outs"][0] and "panic" not in r["outs"][0]]
+    acc = [r for r in good if "ok" in r["outs"][0] or "help" in r["outs"][0]]
+    rej = [r for r in good if not ("ok" in r["outs"][0] or "help" in r["outs"][0])]
+    if len(acc) > cap // 2:
+        acc = run.rng.sample(acc, cap // 2)
+    if len(rej) > cap - len(acc):
+        rej = run.rng.sample(rej, cap - len(acc))
+    sel = acc + rej
+    touts = C.run_harness("docopt", [dict(file=D.script_text(r["lines"], r["with_opts"]), args=r["argv"], trace=True) for r in sel], per_case_timeout=20)
+    lines, idx = [], []
+    for i, o in enumerate(touts):
+        if o.get("crash") or "tail" not in o:
+            continue
+        argvn, opts = o["tail"]
+        lines.append(sx(["tail", ["opts"] + [[k, hx(s) if s is not None else "none", hx(l) if l is not None else "none", hx(d) if d is not None else "none"] for k, s, l, d in opts],
+                         ["argv"] + [hx(a) for a in argvn], ["usages"] + [hx(u) for u in o["usages"]]]))
+        idx.append(i)
+    mouts = C.run_oracle(lines)
+    checked = 0
+    dist = {}
+    for i, mo in zip(idx, mouts):
+        r = sel[i]
+        out = touts[i]["outs"][0]
+        m = parse_sx(mo)
+        checked += 1
+        if isinstance(m, str):
+            kind = m
+        else:
+            kind = "vars"
+        dist[kind] = dist.get(kind, 0) + 1
+        ok = True
+        if kind == "vars":
+            ok = "ok" in out and canon_jv(m[1]) == canon_jv(jv_of_json(out["ok"]))
+        elif kind == "help":
+            ok = "help" in out
+        elif kind in ("no-match", "invalid-usage"):
+            ok = "err" in out
+        elif kind == "panic":
+            ok = "panic" in out
+        if not ok:
+            run.violation("tail-mirror: `prog %s` with %r: the mirror of docopt's last stage gives %s, the implementation %s" %
+                          (r["usage"], r["argv"], mo[:200], json.dumps(out)[:200]),
+                          dict(replay_of(r), normalised_argv=touts[i]["tail"][0], usages=touts[i]["usages"], model=mo, implementation=out), no_input=True)
+            break
+    return checked, dist
 
 
 PROPS = {"C07": c07, "C08": c08, "C09": c09, "C10": c10}
